@@ -539,6 +539,11 @@ public:
     if (hasNode(nodeObject))
       throw Exception("AssociationGraphImplObserver::associateNode : node already exists: " + nodeToString(nodeObject));
 
+    // the node has to exist in the graph and to be free
+    getGraph()->nodeMustExist_(graphNode, "node to associate");
+    if (getNodeFromGraphid(graphNode) != 00)
+      throw Exception("AssociationGraphImplObserver::associateNode : graph node " + TextTools::toString(graphNode) + " is already associated to " + nodeToString(getNodeFromGraphid(graphNode)));
+
     // nodes vector must be the right size. Eg: to store a node with
     // the ID 3, the vector must be of size 4: {0,1,2,3} (size = 4)
     if (graphidToN_.size() < graphNode + 1)
@@ -558,6 +563,11 @@ public:
   {
     if (hasEdge(edgeObject))
       throw Exception("AssociationGraphImplObserver::associateEdge : edge already exists: " + edgeToString(edgeObject));
+
+    // the edge has to exist in the graph and to be free
+    getGraph()->edgeMustExist_(graphEdge, "edge to associate");
+    if (getEdgeFromGraphid(graphEdge) != 00)
+      throw Exception("AssociationGraphImplObserver::associateEdge : graph edge " + TextTools::toString(graphEdge) + " is already associated to " + edgeToString(getEdgeFromGraphid(graphEdge)));
 
     // edges vector must be the right size. Eg: to store an edge with
     // the ID 3, the vector must be of size 4: {0,1,2,3} (size = 4)
